@@ -18,6 +18,7 @@
 package parse
 
 import (
+	"encoding/json"
 	"errors"
 	"fmt"
 	"strconv"
@@ -334,14 +335,31 @@ func (p *flagParser) parseStringDQuote() (string, error) {
 		}
 
 		i += off
-		if in[i-1] != '\\' {
+
+		// the quote is escaped only if it is preceded by an odd number of
+		// backslashes ("a\\" ends with an escaped backslash, not an escaped quote)
+		backslashes := 0
+		for j := i - 1; j > 0 && in[j] == '\\'; j-- {
+			backslashes++
+		}
+		if backslashes%2 == 0 {
 			break
 		}
 		off = i + 1
 	}
 
 	p.input = in[i+1:]
-	return strconv.Unquote(in[:i+1])
+	tok := in[:i+1]
+	s, err := strconv.Unquote(tok)
+	if err != nil {
+		// JSON allows escapes that Go string syntax does not (\/ and
+		// surrogate pairs); the parser is documented as a superset of JSON.
+		var js string
+		if jsonErr := json.Unmarshal([]byte(tok), &js); jsonErr == nil {
+			return js, nil
+		}
+	}
+	return s, err
 }
 
 func (p *flagParser) parseStringSQuote() (string, error) {
